@@ -326,7 +326,7 @@ func (w *c16World) invariant(instRemove map[int]string) []string {
 }
 
 func TestC16(t *testing.T) {
-	col := stats.New("C16", "stateful (model-based) generation over one library holding up to three knowledge bases (kbA/1, kbA/2, kbB/1): histories of up to 10 operations - build a resource of 1-3 generated rules (fresh names, names of removed rules = re-build with new text, duplicate names inside the resource or against active rules), remove a rule through the library, remove it through the blueprint knowledge base, remove it from one instance only, store+load the knowledge base into the same library with overwrite on/off - against a model kb -> name -> rule text in force. Every rule writes its own JSON sink and retracts itself, so results are order-independent. Invariant after every step, for every knowledge base and 2 fact states: a duplicate build returned an error and left the model's rule in force; a new instance can be created; it has exactly one non-deleted entry per active name; FetchMatchingRules, the listener events and the sinks written by Execute involve exactly the model's active rules and agree with each rule's own text built alone; knowledge bases do not influence one another. Non-trivial: the history contains remove->re-build, remove->store/load or a double removal of one name. Distinct by the history.")
+	col := stats.New("C16", "stateful (model-based) generation over one library holding up to three knowledge bases (kbA/1, kbA/2, kbB/1): histories of up to 10 operations - build a resource of 1-3 generated rules (fresh names, names of removed rules = re-build with new text, duplicate names inside the resource or against active rules, half of the latter with the identical text of the rule in force), remove a rule through the library, remove it through the blueprint knowledge base, remove it from one instance only, store+load the knowledge base into the same library with overwrite on/off - against a model kb -> name -> rule text in force. Every rule writes its own JSON sink and retracts itself, so results are order-independent. Invariant after every step, for every knowledge base and 2 fact states: a duplicate build returned an error and left the model's rule in force; a new instance can be created; it has exactly one non-deleted entry per active name; FetchMatchingRules, the listener events and the sinks written by Execute involve exactly the model's active rules and agree with each rule's own text built alone; knowledge bases do not influence one another. Non-trivial: the history contains remove->re-build, remove->store/load or a double removal of one name. Distinct by the history.")
 	defer col.Flush()
 	_ = flag.Set("rapid.steps", "10")
 	stCfg := gen.StateCfg{D: gen.Small, JSON: true, Top: true}
@@ -405,8 +405,14 @@ func TestC16(t *testing.T) {
 					if w.model.removed[kb][name] {
 						flags["rebuild_after_remove"] = true
 					}
-					if w.model.active[kb][name] != nil {
+					if live := w.model.active[kb][name]; live != nil {
 						flags["duplicate_build"] = true
+						if rapid.Bool().Draw(rt, "duplicate_identical") {
+							// the very same rule submitted again (the usual way a duplicate arrives)
+							flags["duplicate_build_identical_text"] = true
+							rules = append(rules, live)
+							continue
+						}
 					}
 					rules = append(rules, mkRule(rt, name))
 				}
